@@ -335,7 +335,8 @@ class Mon:
                        "wire": [], "must": set(), "never": set(), "closing": False, "errs": set(), "scripts": {},
                        "ncb": {"send": 0, "recv": 0}, "pending": [], "empties_wire": 0,
                        "oserr": [], "nalloc": 0, "pm": ("idle",), "rin": [], "rpos": 0, "payload_off": False,
-                       "cur_chunk": False})
+                       "cur_chunk": False, "souts_left": 0, "recv_on": False, "exp_done": None, "exp_alloc": False,
+                       "blk_alloc": 0, "blk_stop": False})
 
     def op_result(self, i, tok, line):
         """one API call `tok` on handle i produced `line` (None for close)"""
@@ -347,8 +348,13 @@ class Mon:
             return
         if w[0] == "close":
             h["closing"] = True
+            h["recv_on"] = False; h["blk_stop"] = True
             return
         r = int(line.split()[2])
+        if w[0] == "rstart" and r == 0:
+            h["recv_on"] = True
+        if w[0] == "rstop":
+            h["recv_on"] = False; h["blk_stop"] = True
         if w[0] in ("send", "try"):
             lens = [] if w[-1] == "-" else list(map(int, w[-1].split(",")))
             seq = h["seq"]; h["seq"] += 1
@@ -462,6 +468,7 @@ class Mon:
             h["cur_chunk"] = False
         elif w[0] == "alloc":
             self.flush_pending(i)
+            h["blk_alloc"] += 1
             k, n = int(w[1][1:]), int(w[2])
             if h["pm"][0] != "idle":
                 self.bad("recv-buffer-not-handed-back", f"h{i} alloc_cb while buffer a{h['nalloc'] - 1} is still out ({h['pm']})")
@@ -527,10 +534,27 @@ class Mon:
         else:
             self.bad("unexpected-line", f"unexpected line {l}")
 
+    def begin_block(self, is_run):
+        """progress expectations for one loop iteration: the socket is writable and readable, so (a) every request
+        owed a callback when the iteration starts is completed in it unless scripted kernel refusals are still
+        pending for the fd, (b) a handle that is receiving gets at least one alloc_cb"""
+        for h in self.h:
+            h["blk_alloc"] = 0; h["blk_stop"] = False
+            h["exp_done"] = set(h["owed"]) if is_run and h["souts_left"] == 0 else None
+            h["exp_alloc"] = bool(is_run and h["recv_on"] and not h["closing"])
+
     def end_block(self, obs):
         for i, h in enumerate(self.h):
             self.flush_pending(i)
             h["cur_chunk"] = False
+            if h["exp_done"]:
+                stuck = sorted(q for q in h["exp_done"] if q in h["owed"])
+                if stuck:
+                    self.bad("send-no-progress", f"h{i} requests {stuck} were queued on a writable socket with no kernel "
+                             f"refusal pending, but one loop iteration neither sent them nor called them back")
+            if h["exp_alloc"] and h["blk_alloc"] == 0 and not h["blk_stop"]:
+                self.bad("recv-no-progress", f"h{i} is receiving and its socket is readable, but one loop iteration made no alloc_cb/recv_cb")
+            h["exp_done"] = None; h["exp_alloc"] = False
             if h["pm"][0] != "idle":
                 sig = KNOWN_STOP_SIG if self.stop_in_chunk else "recv-buffer-not-handed-back"
                 self.bad(sig, f"h{i} buffer a{h['nalloc'] - 1} obtained from alloc_cb was not handed back ({h['pm']})"
@@ -555,8 +579,10 @@ class Mon:
             self.bad("unexpected-line", f"bad obs line {obs}"); return
         tot = 0
         for i, ent in enumerate(m.group(2).split()):
-            mm = re.match(r"h(\d+):q=(\d+)/(\d+):a=(\d)", ent)
+            mm = re.match(r"h(\d+):q=(\d+)/(\d+):a=(\d)(?::s=(\d+))?", ent)
             h = self.h[i]
+            if mm.group(5) is not None:
+                h["souts_left"] = int(mm.group(5))
             tot += len(h["owed"])
             if int(mm.group(2)) != sum(h["owed"].values()) or int(mm.group(3)) != len(h["owed"]):
                 self.bad("send-queue-counters", f"h{i} send_queue_size/count = {mm.group(2)}/{mm.group(3)} but "
@@ -588,6 +614,7 @@ def sim_monitor(lines, out):
             continue
         i = int(w[1][1:]) if len(w) > 1 and w[1].startswith("h") else None
         if w[0] == "sout":
+            mon.h[i]["souts_left"] += len(w[2:])
             for t in w[2:]:
                 if t[0] == "e":
                     e = int(t[1:]) or 1
@@ -609,6 +636,7 @@ def sim_monitor(lines, out):
                     if x.endswith(" spun"):
                         mon.line(x)
                 break
+            mon.begin_block(w[0] == "run")
             if w[0] == "op":
                 mon.h[i]["pending"] = [w[2]]
                 mon.h[i]["cur_chunk"] = False
@@ -727,6 +755,12 @@ CORPUS = [
     # queue under back-pressure: 45 requests queued, drained in chunks, error pinned on the head
     ["new h0 6 1 0", "sout h0 e11"] + ["op h0 send:0:0:6,1"] * 45 + ["op h0 try:0:6", "op h0 try2:3:0:6",
      "sout h0 k7 e4 e1 k20 e11", "run", "run", "run", "run", "op h0 close", "run"],
+    # immediate send on an idle handle refused (EAGAIN / ENOBUFS), nothing else submitted: the next iterations must
+    # retry it on POLLOUT, deliver it and call back with 0; same for one refusal after a partial batch
+    ["new h0 4 0 0", "sout h0 e11", "op h0 send:1:0:9", "run", "run"],
+    ["new h0 6 1 0", "sout h0 e105", "op h0 send:0:0:6,3", "run", "run", "op h0 close", "run"],
+    ["new h0 4 0 0", "new h1 6 0 0", "sout h0 e11", "sout h1 e4 e105", "op h1 send:2:0:8", "op h0 send:1:0:7", "run",
+     "sout h0 e11", "op h0 send:1:0:6", "run", "run"],
     # ENOMEM rollback, close with sends queued
     ["new h0 4 0 0", "op h0 send:1:1:1,1,1,1,1,1", "sout h0 e11 e11", "op h0 send:1:0:9", "op h0 send:1:0:6",
      "op h0 close", "run", "run"],
